@@ -23,6 +23,20 @@ static void op_awaitvar(actor *a, int v, long n)
         actor_wait_step(a);
 }
 
+/* like awaitvar, but virtual time flows (quantum_us per poll) while waiting:
+ * a relative futex timeout computed just before a clock jump, or by a thread
+ * that was descheduled meanwhile, overshoots its absolute deadline by an
+ * unbounded amount - legal for a timed wait - so "eventually times out" needs
+ * a clock that keeps running */
+static void op_awaitvar_t(actor *a, int v, long n, long quantum_us)
+{
+    while (__atomic_load_n(&G.var[v], __ATOMIC_SEQ_CST) < n) {
+        actor_wait_step(a);
+        if (ds_active() && quantum_us > 0)
+            ds_advance((uint64_t)quantum_us * 1000ull);
+    }
+}
+
 /* ---- C05 / C19: condition variables -------------------------------- */
 /* all of this bookkeeping is only touched while the caller holds the mutex
  * of the monitor, except ret_* which are atomics */
@@ -140,17 +154,41 @@ static void op_csignal(actor *a, int c, int m, int bcast)
         generr("signal outside the monitor");
     cond_signal_locked(a, c, bcast);
 }
-/* signaller loop: until `total` waits have returned */
+/* signaller loop: until `total` waits have returned.
+ * pattern bits 0..15: signal (0) or broadcast (1) per iteration; bit 16: issue
+ * one signal with no waiter first; bit 17: "racy" mode for conds whose waiters
+ * can time out concurrently: a credit issued for a waiter that has already left
+ * the queue internally cannot be told from one still on its way back, so after
+ * a stall the loop signals again with an extra credit (sound: a SUCCESS still
+ * needs a credit; exactness of the count is given up, see DESIGN.md C19). */
+static int c_racy[MAXO];
 static void op_csigloop(actor *a, int c, int m, long total, long pattern)
 {
-    int it = 0;
+    int it = 0, stall = 0, last_left = -1;
+    int racy = (int)((pattern >> 17) & 1);
+    if (racy)
+        c_racy[c] = 1;
     for (;;) {
         op_lock(a, m, 0);
         int done = (c_left[c] >= total);
-        int uncredited = c_registered[c] - c_left[c] - c_credits[c];
+        int waiting = c_registered[c] - c_left[c];
+        int uncredited = waiting - c_credits[c];
+        if (c_left[c] != last_left) {
+            last_left = c_left[c];
+            stall = 0;
+        } else {
+            stall++;
+        }
         if (!done && uncredited > 0) {
             cond_signal_locked(a, c, (pattern >> (it % 16)) & 1);
             it++;
+        } else if (!done && racy && waiting > 0 && stall >= 40) {
+            c_credits[c]++;
+            c_credited[c]++;
+            int rc = ABT_cond_signal(G.cond[c]);
+            CHECK_RC(rc, "ABT_cond_signal");
+            stat_add("cond_overcredit", 1);
+            stall = 0;
         } else if (!done && ((pattern >> 16) & 1) && it == 0) {
             /* a signal with no waiter: must wake nobody */
             cond_signal_locked(a, c, 0);
